@@ -71,6 +71,24 @@ CHECKS = {
              'write/close history and the transcript must not depend on read splitting; 56 full handshakes against a '
              'spec-following server actor must complete.',
         note='liveness (never stalls) is decided as bounded safety: the harness is the only event source; ' + TRUST),
+    'C08': dict(
+        category='exploration', design_ref='DESIGN.md section 3 C08',
+        technique='model-based history testing (Hypothesis) + exhaustive enumeration of event orderings on a virtual clock',
+        text='Histories of calls, replies, error replies, duplicates, unsolicited replies, deadline expiries and loss on one '
+             'in-memory connection are executed against a reference model of "first applicable completion per serial"; '
+             'after every step every Deferred, the pending-call table and the virtual-clock timers are compared with the '
+             'model. All orderings of reply/error/deadline events for 2 (quick) and 3 (thorough: 362880) concurrent '
+             'calls are enumerated.',
+        note='harness owns transport and clock (twisted.internet.task.Clock substituted for txdbus.client.reactor); ' + TRUST),
+    'C09': dict(
+        category='fault_enumeration', design_ref='DESIGN.md section 3 C09',
+        technique='fault injection at every crash point: byte-index cuts of the server stream, unreachable-endpoint subsets, loss after every history prefix',
+        text='client.connect runs on MemoryReactorClock; for every subset of unreachable addresses and every byte index '
+             'at which the server stream can be cut (and refusal / Hello-error / garbage scripts) the connect Deferred must '
+             'fire exactly once with the right outcome at quiescence. An established connection with calls, timers, '
+             'proxies of every kind and disconnect callbacks is lost after every prefix of a generated history; every '
+             'pending call must fail once with the reason, timers vanish, callbacks run once, nothing fires later.',
+        note='liveness decided as bounded safety at quiescence (transport closed, virtual clock dry); ' + TRUST),
     'C18': dict(
         category='exploration', design_ref='DESIGN.md section 3 C18',
         technique='bounded-exhaustive string enumeration + Hypothesis, differential against hand-written grammar recognisers',
